@@ -28,11 +28,12 @@ type CallLog struct {
 	mu     sync.Mutex
 	Calls  []CallRec
 	FailAt int    // global index of the call that must fail (-1 = none)
+	CutAt  int    // the process "crashes" at this call: it and every later call fail, nothing reaches a collaborator any more (-1 = none)
 	Hit    bool   // the fault was injected
 	Point  func(kind string) // optional scheduling seam, called before every call
 }
 
-func NewCallLog() *CallLog { return &CallLog{FailAt: -1} }
+func NewCallLog() *CallLog { return &CallLog{FailAt: -1, CutAt: -1} }
 
 // next records a call and says whether it must fail.
 func (l *CallLog) next(kind, info string) bool {
@@ -46,6 +47,10 @@ func (l *CallLog) next(kind, info string) bool {
 	defer l.mu.Unlock()
 	idx := len(l.Calls)
 	l.Calls = append(l.Calls, CallRec{Kind: kind, Info: info})
+	if l.CutAt >= 0 && idx >= l.CutAt {
+		l.Hit = true
+		return true
+	}
 	if idx == l.FailAt {
 		l.Hit = true
 		return true
@@ -72,6 +77,8 @@ func (l *CallLog) Len() int {
 }
 
 var ErrInjected = fmt.Errorf("verif: injected fault")
+
+
 
 // CacheDeco decorates a cache.Client: counts calls, injects one fault.
 type CacheDeco struct {
